@@ -42,8 +42,9 @@ claim("C04",
       "Decides the structural clauses of the signing property: the head/body signed are the head/body forwarded and nothing but the "
       "authorization insert happens after signing; header value format and provenance; both signing routes emit the same piece "
       "sequence through the same helpers; compute_signature is the HMAC chain; the exemption predicate accepts exactly the two "
-      "documented pairs; the agent's own host calls are signed per a reviewed table; canonicalisers must not drop request items by "
-      "overwriting keyed inserts. Does not decide agreement with the host's canonicaliser or the hash arithmetic.",
+      "documented pairs; the agent's own host calls are signed per a reviewed table and each signed one reads key id and value from "
+      "the key keeper in that very call (no remembered key); the canonical form (sort key, templates, case folding) is a frozen table; "
+      "canonicalisers must not drop request items by overwriting keyed inserts. Does not decide agreement with the host's canonicaliser or the hash arithmetic.",
       "Trusts hmac_sha256/hex crates, rustc MIR + extractor; the host's canonicaliser is not in the repository.",
       "DESIGN.md §5 C04")
 
@@ -90,8 +91,9 @@ claim("C11",
       "Decides per request, for every rule set and mode: the three endpoint authorizers implement the same four-row mode table "
       "(None->Ok, allowed->Ok, denied+Audit->OkWithAudit, denied->Forbidden); in the handler every result != Ok path passes exactly one "
       "authorize-failed record and the Ok path none; the record routine routes the flag to the failed-summary actor message; that actor "
-      "arm inserts count=1 or increments by one, keyed by user/ip/port/process/cmdline/status, in a task-local map (single writer); the "
-      "summary is published in the aggregate status. Totals over histories (24h reset) are not decided.",
+      "arm inserts count=1 or increments by one, keyed by the whole (unshortened) user/ip/port/process/cmdline/status string, in a "
+      "task-local map (single writer), delivered by an awaited send; after the decision audited and allowed requests share one "
+      "forwarding path; the summary is published in the aggregate status. Totals over histories (24h reset) are not decided.",
       "Trusts rustc MIR + extractor, tokio channel delivery; Forbidden=>403/no relay is C01; disabled-mode shortcut is C02.R4.",
       "DESIGN.md §5 C11")
 
@@ -133,8 +135,8 @@ claim("C09",
       "Decides explicit sentences of the statement and the pairings it presupposes (NOT convergence over arbitrary histories): a failed "
       "status poll reaches no state setter in its iteration and every post-poll setter is behind the Ok edge; get_status validates before "
       "Ok; each endpoint's rule id, rules, mode, actor variable, actor message and redirect constants are wired to the same endpoint "
-      "(declared exception: HostGA mode = WireServer mode); redirect updates and clear_key hang on the state-changed edge; the key block "
-      "is entered iff the host names no key or a different one.",
+      "(declared exception: HostGA mode = WireServer mode); redirect updates and clear_key hang on the state-changed edge and the "
+      "change detector reads every status field the redirect decisions read; the key block is entered iff the host names no key or a different one.",
       "Trusts rustc MIR + extractor; convergence after arbitrary histories and faults is not decided.",
       "DESIGN.md §5 C09")
 
@@ -197,8 +199,8 @@ claim("C17",
       "feed them the backup / packaged folder and take the unit file from Backup/ resp. the tool's directory; in main stop_service "
       "precedes the copy and setup_service (unit -> enable -> start) follows, restore is behind the backup-exists test, purge removes only "
       "the backup folder, uninstall deletes files only in package mode; every fs effect and process spawn reachable from main targets the "
-      "four system locations, the backup folder, the tool's log, systemctl or the packaged agent's --version; the extension runs backup "
-      "before install, restore only on Error, purge only on Success.",
+      "four system locations, the backup folder, the tool's log, systemctl or the packaged agent's --version; every copy/delete of the tables is attempted on "
+      "every path of the table functions and primitives (no skip on destination state); the extension runs backup before install, restore only on Error, purge only on Success.",
       "Trusts fs::copy fidelity, systemctl, rustc MIR + extractor; Windows code paths are not compiled here; arbitrary command sequences "
       "beyond the per-command tables are not decided.",
       "DESIGN.md §5 C17")
@@ -210,7 +212,9 @@ claim("C06",
       "happens only under a policy_map hit keyed by the connect's own destination, after the not-skipped check and after the original "
       "destination was recorded; audit records are written only for non-skipped processes under a local/policy hit and keyed by the local "
       "port; every map's key/value size and word order equals the [u32; N] types and #[repr(C)] mirrors the agent opens that map with, "
-      "to_array/from_array keep field i in word offset/4, map and program names agree, byte-order tags match, and the skip map gets a tgid.",
+      "to_array/from_array keep field i in word offset/4, map and program names agree, byte-order tags match, the skip map gets a tgid, the "
+      "hand-over slot is keyed per thread, and every policy_map entry the agent writes has key = (endpoint ip, endpoint port) and value = "
+      "(proxy ip, listener port) at every call site (interprocedural role provenance).",
       "Trusts clang 14 parsing/layout (x86-64 = BPF layout for __u32/__u64 fields), the stub libbpf headers in /verif/cstubs, the UAPI helper "
       "documentation; verifier acceptance, LRU capacity, cross-thread races and kernel struct offsets are not decided.",
       "DESIGN.md §5 C06")
